@@ -1,12 +1,26 @@
 #!/bin/bash
-# usage: mutrun.sh <patch.diff> <tier> <prop>...   applies a seeded change to /repo, runs the checks, reverts.
+# usage: mutrun.sh <patch.diff> <tier> <prop>...
+# Applies a seeded change to a scratch worktree of /repo HEAD and runs the named checks against it
+# (VERIF_REPO/VERIF_BUILD/VERIF_OUT redirected), so neither /repo nor /verif/evidence is touched.
+# MUTRUN_INPLACE=1 applies it to /repo itself instead (git apply ... ; checks ; git checkout -- .).
 P="$1"; T="$2"; shift; shift
-cd /repo || exit 2
-if [ -n "$(git status --porcelain)" ]; then echo "/repo not clean"; exit 2; fi
-git apply "$P" || { echo "patch does not apply"; exit 2; }
+if [ -n "${MUTRUN_INPLACE:-}" ]; then
+  cd /repo || exit 2
+  if [ -n "$(git status --porcelain)" ]; then echo "/repo not clean"; exit 2; fi
+  git apply "$P" || { echo "patch does not apply"; exit 2; }
+  for id in "$@"; do
+    out=$(cd /verif && ./check $id $T 2>&1); rc=$?
+    echo "  $id $T rc=$rc $(echo "$out" | grep -c '^VIOLATION') violation line(s): $(echo "$out" | grep 'violation' | head -1 | cut -c1-260)"
+  done
+  git -C /repo checkout -- .
+  [ -z "$(git -C /repo status --porcelain)" ] || echo "WARNING /repo dirty"
+  exit 0
+fi
+S=$(mktemp -d /tmp/mr.XXXXXX); W=$S/wt
+git -C /repo worktree add -q --detach $W HEAD || exit 2
+trap 'git -C /repo worktree remove --force $W; git -C /repo worktree prune; rm -rf $S' EXIT
+git -C $W apply "$P" || { echo "patch does not apply"; exit 2; }
 for id in "$@"; do
-  out=$(cd /verif && ./check $id $T 2>&1); rc=$?
+  out=$(cd "$(dirname "$0")" && VERIF_REPO=$W VERIF_BUILD=$S/build VERIF_OUT=$S/out ./check $id $T 2>&1); rc=$?
   echo "  $id $T rc=$rc $(echo "$out" | grep -c '^VIOLATION') violation line(s): $(echo "$out" | grep 'violation' | head -1 | cut -c1-260)"
 done
-git -C /repo checkout -- .
-[ -z "$(git -C /repo status --porcelain)" ] || echo "WARNING /repo dirty"
